@@ -2222,7 +2222,8 @@ func main() {
 	writeSlabs(*out)
 	// the object engine (slab-level restructuring of the maps) writes <out>/TransMapSlabs.lean
 	writeObjMaps(*out)
-	writeObjElems(*out) // the object engine again (element layer of the maps): <out>/TransMapElems.lean, TransMapElem.lean
+	writeObjDescent(*out) // the object engine again (descent and top level of the maps): <out>/TransMapDescent.lean
+	writeObjElems(*out)   // the object engine again (element layer of the maps): <out>/TransMapElems.lean, TransMapElem.lean
 	path := filepath.Join(*out, "Trans.lean")
 	content := b.String()
 	if old, err := os.ReadFile(path); err == nil && string(old) == content {
